@@ -431,6 +431,21 @@ func (h *hist) encrypt(s *sess) {
 	if h.p.Oracles&OC09 != 0 {
 		h.oracleC09Op(s, label, ledFrom, aeadFrom)
 	}
+	// the caller owns the record it was handed: whatever it does to it afterwards must not reach back into the SDK
+	// (rc.drr is a deep copy taken above; a record that shares memory with cached key metadata would corrupt later
+	// operations, which the round-trip and rotation oracles then report)
+	if !viaStore && drr.Key != nil {
+		if pk := drr.Key.ParentKeyMeta; pk != nil {
+			pk.ID, pk.Created = "scribbled-by-caller", -7
+		}
+		for i := range drr.Key.EncryptedKey {
+			drr.Key.EncryptedKey[i] ^= 0x5a
+		}
+		drr.Key.Created, drr.Key.Revoked = -1, true
+		for i := range drr.Data {
+			drr.Data[i] ^= 0x5a
+		}
+	}
 }
 
 func (h *hist) oracleC04(s *sess, rc *rec, drr *appencryption.DataRowRecord, t time.Time, msFrom int) {
@@ -603,6 +618,21 @@ func (h *hist) decrypt(s *sess, rc *rec, how string) {
 	}
 	if h.p.Oracles&OC03 != 0 {
 		h.oracleC03Scan(label)
+	}
+	// the caller owns what it got back and what it passed in: it overwrites both now
+	for i := range out {
+		out[i] ^= 0xa5
+	}
+	if arg != nil && arg.Key != nil {
+		if pk := arg.Key.ParentKeyMeta; pk != nil {
+			pk.ID, pk.Created = "scribbled-by-caller", -9
+		}
+		for i := range arg.Key.EncryptedKey {
+			arg.Key.EncryptedKey[i] ^= 0xa5
+		}
+		for i := range arg.Data {
+			arg.Data[i] ^= 0xa5
+		}
 	}
 }
 
